@@ -26,7 +26,7 @@ fn main() {
     panics::install();
     let code = match args[1].as_str() {
         "exec" => run_big(move || exec::run(&args[2], &args[3])),
-        "race" => race::run(&args[2]),
+        "race" => race::run(&args[2], args.get(3).map(|s| s.as_str())),
         "version" => {
             println!("avmon-exec 1");
             0
